@@ -42,6 +42,9 @@ def tag(r):
 
 class Dut:
     def __init__(self, dyn, lite, seed):
+        # dyn = "mixed": per-pipe payload-length modes - pipe 0 static (3 bytes), the other pipes dynamic
+        self.mixed = dyn == "mixed"
+        dyn = bool(dyn)
         self.lp = link.LinkPair(dict(dyn=dyn, pl=7, pipe=1, arc=2, ard=250), tx_lite=lite, rx_lite=False, seed=seed)
         lp = self.lp
         self.nrf, self.chip, self.air, self.lite = lp.tx, lp.tchip, lp.air, lite
@@ -54,6 +57,9 @@ class Dut:
             self.nrf.set_payload_length(1, 0)
             self.nrf.set_payload_length(5, 1)
             self.nrf.set_payload_length(32, 5)
+        if self.mixed:
+            self.nrf.set_dynamic_payloads(False, 0)
+            self.nrf.set_payload_length(3, 0)
         self.dyn = dyn
         self.nrf.listen = True
         lp.s.advance(300_000)
@@ -65,7 +71,7 @@ class Dut:
         self.k += 1
         if op[0] == "peer":
             pipe, n = op[1], op[2]
-            if not self.dyn:
+            if not self.dyn or (self.mixed and pipe == 0):
                 n = chip.r[0x11 + pipe]
             addr = chip.pipe_addr(pipe)
             self.air.phantom_tx(addr, chip.r[5], chip.aw(), chip.rate(), chip.crc_len(), bytes([(self.k + i) & 0xFF for i in range(n)]),
@@ -76,7 +82,7 @@ class Dut:
             self.air.fates = {"tx_ok": [], "tx_fail": list("PPP"), "tx_retry_ok": list("PD")}[op[0]]
             try:
                 with sim.guard(lp.s, 2_000_000_000):
-                    nrf.send(bytes([0xEE, self.k]) + bytes(5 if not self.dyn else 0), send_only=True)
+                    nrf.send(bytes([0xEE, self.k]) + bytes(5 if not self.dyn else 1 if self.mixed else 0), send_only=True)
             except Exception:  # noqa
                 pass
             lp.settle()
@@ -162,19 +168,19 @@ def build(chk, lite=False):
     depth = 2 if quick else 3
     acc = [a for a in ACCESS if not (lite and a[0] == "last_tx_arc")]
     tail = [a for a in TAIL if not (lite and a[0] == "last_tx_arc")]
-    for dyn in (True, False):
+    for dyn in (True, False) if lite else (True, False, "mixed"):
         for n in range(0, depth + 1):
             for prefix in itertools.product(TRAFFIC, repeat=n):
                 for a in acc:
                     jobs.append((dyn, lite, prefix, [a] + tail, hash((chk.seed, dyn, prefix, a)) & 0xFFFFFF))
-    rnd = [(dyn, lite, chk.seed * 7 + i) for i in range(100 if quick else 3000) for dyn in (True, False)]
+    rnd = [(dyn, lite, chk.seed * 7 + i) for i in range(100 if quick else 3000) for dyn in ((True, False) if lite else (True, False, "mixed"))]
     return jobs, rnd
 
 
 def run(chk, lite=False):
     chk.rule = ("traffic prefixes (peer payloads on pipes 0/1/5 of different lengths, successful / failed / retried local "
                 "transmissions, write-only loads, ACK payload loads) up to depth 2 (thorough 3) x every accessor x an "
-                "observation tail, in dynamic and static payload modes; plus random depth-40 histories; distinct = traces")
+                "observation tail, in dynamic, static and per-pipe mixed (pipe 0 static, others dynamic) payload modes; plus random depth-40 histories; distinct = traces")
     r = tlc.mc("Nrf24Fifo", timeout=600)
     chk.add_tlc(r, "chip FIFO/STATUS model invariants")
     if not lite:
